@@ -1341,12 +1341,15 @@ class Converter:
 
         for pv in loop_state_vars:
             onnx_var = self._py_var_to_onnx_var(pv, self._source_of(loop_stmt))
-            if onnx_var.name not in self._current_fn.assigned_names:
+            if onnx_var.name not in self._current_fn.assigned_names or any(
+                onnx_var is previous for previous in self._current_fn.outputs
+            ):
                 # When converting the loop-body into a graph, we need to handle
                 # identity assignments of the form "x = y" inside the loop body
                 # specially if y represents a value computed outside the loop body.
                 # In this case, we create a copy of y, treating the statement as
-                # shorthand for "x = op.Identity(y)".
+                # shorthand for "x = op.Identity(y)". The same holds when y is
+                # another loop-carried variable: graph outputs must be distinct values.
                 onnx_var = self._emit_copy(onnx_var, pv)
             self._current_fn.outputs.append(onnx_var)
         body = self._exit_scope()
